@@ -33,3 +33,380 @@ Lemma version_sep_ok : Consts.det_version_sep = [ch_dot] /\ Consts.det_version_b
 Proof. repeat split. Qed.
 Lemma relay_scan_ok : forall c, relay_scan_char c = (c =? ch_colon) || (c =? ch_dot) || is_digit c.
 Proof. intro c. unfold relay_scan_char, is_digit. cbn. now rewrite orb_false_r. Qed.
+
+(* ==================================================================================== *)
+(* byte-string library *)
+
+Lemma has_prefix_app : forall p l, has_prefix p (p ++ l) = true.
+Proof. induction p as [|x p IH]; intro l; cbn [has_prefix app]; [reflexivity|]. now rewrite N.eqb_refl, IH. Qed.
+
+Lemma has_prefix_true : forall p l, has_prefix p l = true <-> exists r, l = p ++ r.
+Proof.
+  induction p as [|x p IH]; intro l; cbn [has_prefix].
+  - split; [intros _; now exists l | reflexivity].
+  - destruct l as [|y l]; [split; [discriminate | intros [r Hr]; discriminate]|].
+    rewrite andb_true_iff, N.eqb_eq, IH. split.
+    + intros [-> [r ->]]. now exists r.
+    + intros [r Hr]. cbn [app] in Hr. injection Hr as -> ->. split; [reflexivity | now exists r].
+Qed.
+
+Lemma has_prefix_nil_r : forall p, p <> [] -> has_prefix p [] = false.
+Proof. destruct p; [congruence | reflexivity]. Qed.
+
+Lemma strip_prefix_some : forall p l r, strip_prefix p l = Some r <-> l = p ++ r.
+Proof.
+  induction p as [|x p IH]; intros l r; cbn [strip_prefix app].
+  - split; [now intros [= ->] | now intros ->].
+  - destruct l as [|y l]; [split; discriminate|].
+    destruct (N.eqb_spec x y) as [->|Hne].
+    + rewrite IH. split; [now intros -> | now intros [= ->]].
+    + split; [discriminate | intros [= -> _]; congruence].
+Qed.
+
+Lemma strip_prefix_has : forall p l r, strip_prefix p l = Some r -> has_prefix p l = true.
+Proof. intros p l r H. apply strip_prefix_some in H as ->. apply has_prefix_app. Qed.
+
+Lemma strip_prefix_none : forall p l, strip_prefix p l = None -> has_prefix p l = false.
+Proof.
+  intros p l H. destruct (has_prefix p l) eqn:E; [|reflexivity].
+  apply has_prefix_true in E as [r ->]. now rewrite (proj2 (strip_prefix_some p (p ++ r) r) eq_refl) in H.
+Qed.
+
+Lemma strip_byte_some : forall b l r, strip_byte b l = Some r <-> l = b :: r.
+Proof.
+  intros b [|x l] r; cbn [strip_byte]; [split; discriminate|].
+  destruct (N.eqb_spec x b) as [->|Hne]; split; try discriminate.
+  - now intros [= ->]. - now intros [= ->]. - intros [= -> _]. congruence.
+Qed.
+
+Lemma skipn_skipn_add : forall {A} i j (l : list A), skipn i (skipn j l) = skipn (j + i) l.
+Proof. intros A i j; revert i; induction j as [|j IH]; intros i l; [reflexivity|]. destruct l; [now rewrite !skipn_nil | cbn [skipn plus]; apply IH]. Qed.
+
+(* "p occurs in l at offset i" *)
+Definition occ (p l : list N) (i : nat) : Prop := has_prefix p (skipn i l) = true.
+
+Lemma last_index_none : forall p l, last_index_of p l = None -> forall i, has_prefix p (skipn i l) = false.
+Proof.
+  intros p; induction l as [|x l IH]; cbn [last_index_of]; intros H i.
+  - rewrite skipn_nil. now destruct (has_prefix p []).
+  - destruct (last_index_of p l) eqn:E; [discriminate|].
+    destruct i as [|i]; cbn [skipn]; [now destruct (has_prefix p (x :: l)) | now apply IH].
+Qed.
+
+Lemma last_index_some : forall p l i, p <> [] -> last_index_of p l = Some i ->
+  has_prefix p (skipn i l) = true /\ (i <= length l)%nat /\
+  forall j, (i < j)%nat -> has_prefix p (skipn j l) = false.
+Proof.
+  intros p l i Hp; revert i; induction l as [|x l IH]; cbn [last_index_of]; intros i H.
+  - rewrite (has_prefix_nil_r p Hp) in H. discriminate.
+  - destruct (last_index_of p l) as [k|] eqn:E.
+    + injection H as <-. destruct (IH k eq_refl) as (H1 & H2 & H3). cbn [skipn length].
+      repeat split; [assumption | lia |]. intros [|j] Hj; [lia|]. cbn [skipn]. apply H3. lia.
+    + destruct (has_prefix p (x :: l)) eqn:E2; [|discriminate]. injection H as <-. cbn [skipn length].
+      repeat split; [assumption | lia |]. intros [|j] Hj; [lia|]. cbn [skipn]. now apply last_index_none.
+Qed.
+
+Lemma last_index_intro : forall p l i, p <> [] -> has_prefix p (skipn i l) = true ->
+  (forall j, (i < j)%nat -> has_prefix p (skipn j l) = false) -> last_index_of p l = Some i.
+Proof.
+  intros p l i Hp Hi Hlast. destruct (last_index_of p l) as [k|] eqn:E.
+  - destruct (last_index_some _ _ _ Hp E) as (H1 & _ & H3).
+    destruct (Nat.lt_trichotomy i k) as [Hlt|[->|Hgt]]; [|reflexivity|].
+    + rewrite (Hlast k Hlt) in H1. discriminate.
+    + rewrite (H3 i Hgt) in Hi. discriminate.
+  - rewrite (last_index_none _ _ E i) in Hi. discriminate.
+Qed.
+
+Lemma index_of_none : forall p l, index_of p l = None -> forall i, has_prefix p (skipn i l) = false.
+Proof.
+  intros p; induction l as [|x l IH]; intros H i.
+  - cbn [index_of] in H. rewrite skipn_nil. now destruct (has_prefix p []).
+  - cbn [index_of] in H. destruct (has_prefix p (x :: l)) eqn:E; [discriminate|].
+    destruct (index_of p l) eqn:E2; [discriminate|].
+    destruct i; cbn [skipn]; [assumption | now apply IH].
+Qed.
+
+Lemma index_of_some : forall p l i, index_of p l = Some i -> has_prefix p (skipn i l) = true.
+Proof.
+  intros p; induction l as [|x l IH]; intros i H; cbn [index_of] in H.
+  - destruct (has_prefix p []) eqn:E; [|discriminate]. now injection H as <-.
+  - destruct (has_prefix p (x :: l)) eqn:E; [now injection H as <-|].
+    destruct (index_of p l) eqn:E2; [|discriminate]. injection H as <-. cbn [skipn]. now apply IH.
+Qed.
+
+Lemma contains_false : forall p l, contains p l = false <-> forall i, has_prefix p (skipn i l) = false.
+Proof.
+  intros p l. unfold contains. split.
+  - destruct (index_of p l) eqn:E; [discriminate|]. intros _. now apply index_of_none.
+  - intros H. destruct (index_of p l) eqn:E; [|reflexivity]. apply index_of_some in E. now rewrite H in E.
+Qed.
+
+Lemma contains_true : forall p l, contains p l = true <-> exists i, has_prefix p (skipn i l) = true.
+Proof.
+  intros p l. split.
+  - unfold contains. destruct (index_of p l) eqn:E; [|discriminate]. intros _. eexists. eapply index_of_some; eassumption.
+  - intros [i Hi]. destruct (contains p l) eqn:E; [reflexivity|]. rewrite (proj1 (contains_false p l) E i) in Hi. discriminate.
+Qed.
+
+Lemma contains_skipn : forall p l k, contains p (skipn k l) = true -> contains p l = true.
+Proof. intros p l k H. apply contains_true in H as [i Hi]. rewrite skipn_skipn_add in Hi. apply contains_true. eauto. Qed.
+
+(* ==================================================================================== *)
+(* bytes.ReplaceAll *)
+
+Lemma replace_from_skip : forall old new l k, replace_from old new k l = replace_from old new O (skipn k l).
+Proof.
+  intros old new; induction l as [|x l IH]; intros k.
+  - now rewrite skipn_nil.
+  - destruct k as [|k]; [reflexivity|]. cbn [replace_from skipn]. apply IH.
+Qed.
+
+Lemma replace_all_cons : forall old new x l,
+  replace_all old new (x :: l) =
+  if has_prefix old (x :: l) then new ++ replace_all old new (skipn (pred (length old)) l)
+  else x :: replace_all old new l.
+Proof.
+  intros old new x l. unfold replace_all. cbn [replace_from].
+  destruct (has_prefix old (x :: l)); [|reflexivity]. now rewrite replace_from_skip.
+Qed.
+
+Lemma replace_all_nil : forall old new, replace_all old new [] = [].
+Proof. reflexivity. Qed.
+
+(* ---- the client-mode rewrite leaves no marker behind ---- *)
+Section Inert.
+  (* concrete values; client_consts_ok below ties them to Gen.Consts *)
+  Let old : list N := [84; 82; 90; 83; 90].           (* TRZSZ *)
+  Let new : list N := [84; 82; 90; 83; 90; 71; 79].   (* TRZSZGO *)
+  Let key : list N := [84; 82; 90; 83; 90; 58].       (* TRZSZ: *)
+
+  Lemma inert_head_sync : forall w, ~ In 84 w -> forall l,
+    has_prefix w (replace_all old new l) = true -> has_prefix w l = true.
+  Proof.
+    induction w as [|c w IH]; intros Hw l H; [reflexivity|].
+    destruct l as [|x l]; [discriminate H|]. rewrite replace_all_cons in H.
+    destruct (has_prefix old (x :: l)) eqn:E.
+    - cbn [new app has_prefix] in H. apply andb_true_iff in H as [H _]. apply N.eqb_eq in H. subst c.
+      exfalso. apply Hw. now left.
+    - cbn [has_prefix] in H |- *. apply andb_true_iff in H as [H1 H2]. rewrite H1. cbn [andb].
+      apply IH; [|assumption]. intro Hin. apply Hw. now right.
+  Qed.
+
+  Lemma inert_head : forall l, has_prefix key (replace_all old new l) = false.
+  Proof.
+    intros [|x l]; [reflexivity|]. rewrite replace_all_cons. destruct (has_prefix old (x :: l)) eqn:E; [reflexivity|].
+    destruct (has_prefix key (x :: replace_all old new l)) eqn:K; [|reflexivity].
+    cbn [key has_prefix] in K. apply andb_true_iff in K as [K1 K2]. apply N.eqb_eq in K1. subst x.
+    assert (Hs : has_prefix [82; 90; 83; 90; 58] l = true).
+    { apply inert_head_sync; [|exact K2]. cbn. intros [H|[H|[H|[H|[H|[]]]]]]; discriminate. }
+    apply has_prefix_true in Hs as [r ->]. discriminate E.
+  Qed.
+
+  Lemma inert_everywhere : forall n l i, (length l <= n)%nat ->
+    has_prefix key (skipn i (replace_all old new l)) = false.
+  Proof.
+    induction n as [|n IH]; intros l i Hl.
+    - destruct l; [now rewrite replace_all_nil, skipn_nil | cbn in Hl; lia].
+    - destruct i as [|i]; [apply inert_head|].
+      destruct l as [|x l]; [now rewrite replace_all_nil, skipn_nil|]. rewrite replace_all_cons.
+      destruct (has_prefix old (x :: l)) eqn:E.
+      + assert (Hr : (length (skipn (pred (length old)) l) <= n)%nat)
+          by (rewrite skipn_length; cbn [length] in Hl; lia).
+        set (rest := skipn (pred (length old)) l) in *. clearbody rest.
+        cbn [new app]. do 6 (destruct i as [|i]; [reflexivity|]). cbn [skipn]. now apply IH.
+      + cbn [skipn]. apply IH. cbn [length] in Hl. lia.
+  Qed.
+
+  Lemma client_consts_ok : Consts.det_client_old = old /\ Consts.det_client_new = new /\
+    marker = [58; 58] ++ key ++ skipn 8 marker.
+  Proof. repeat split. Qed.
+
+  Lemma client_rewrite_no_marker : forall l,
+    last_index_of marker (replace_all Consts.det_client_old Consts.det_client_new l) = None.
+  Proof.
+    intros l. destruct (last_index_of marker _) as [i|] eqn:E; [|reflexivity]. exfalso.
+    apply last_index_some in E as (H & _); [|discriminate].
+    destruct client_consts_ok as (Ho & Hn & Hm). rewrite Ho, Hn, Hm in H.
+    apply has_prefix_true in H as [r Hr].
+    pose proof (inert_everywhere (length l) l (i + 2) (Nat.le_refl _)) as Hk.
+    rewrite <- skipn_skipn_add, Hr in Hk. cbn [app skipn] in Hk.
+    rewrite <- app_assoc, has_prefix_app in Hk. discriminate.
+  Qed.
+End Inert.
+
+(* ==================================================================================== *)
+(* the matchers *)
+
+(* "does not start with a digit" *)
+Definition hnd (t : list N) : Prop := match t with x :: _ => is_digit x = false | [] => True end.
+
+Lemma span_digits_spec : forall l d t, span_digits l = (d, t) ->
+  l = d ++ t /\ all_digits d = true /\ hnd t.
+Proof.
+  induction l as [|x l IH]; intros d t H; cbn [span_digits] in H.
+  - injection H as <- <-. repeat split.
+  - destruct (is_digit x) eqn:E.
+    + destruct (span_digits l) as [d' t'] eqn:E2. injection H as <- <-.
+      destruct (IH _ _ eq_refl) as (-> & Hd & Ht). cbn [app all_digits forallb]. rewrite E. repeat split; assumption.
+    + injection H as <- <-. repeat split. exact E.
+Qed.
+
+Lemma span_digits_intro : forall d t, all_digits d = true -> hnd t -> span_digits (d ++ t) = (d, t).
+Proof.
+  induction d as [|x d IH]; intros t Hd Ht.
+  - destruct t as [|y t]; [reflexivity|]. cbn [app span_digits]. cbn [hnd] in Ht. now rewrite Ht.
+  - cbn [all_digits forallb] in Hd. apply andb_true_iff in Hd as [Hx Hd]. cbn [app span_digits]. rewrite Hx.
+    unfold all_digits in IH. now rewrite IH.
+Qed.
+
+Lemma digits1_spec : forall l d t, digits1 l = Some (d, t) ->
+  l = d ++ t /\ d <> [] /\ all_digits d = true /\ hnd t.
+Proof.
+  intros l d t H. unfold digits1 in H. destruct (span_digits l) as [d' t'] eqn:E.
+  destruct d' as [|x d']; [discriminate|]. injection H as <- <-.
+  destruct (span_digits_spec _ _ _ E) as (H1 & H2 & H3). repeat split; try assumption. discriminate.
+Qed.
+
+Lemma digits1_intro : forall d t, d <> [] -> all_digits d = true -> hnd t -> digits1 (d ++ t) = Some (d, t).
+Proof. intros d t Hne Hd Ht. unfold digits1. rewrite span_digits_intro by assumption. destruct d; congruence. Qed.
+
+Lemma digits1_none_hnd : forall l, digits1 l = None -> hnd l.
+Proof.
+  intros [|x l] H; [exact I|]. unfold digits1 in H. cbn [span_digits] in H. cbn [hnd].
+  destruct (is_digit x); [|reflexivity]. destruct (span_digits l); discriminate.
+Qed.
+
+(* a version text: three non-empty digit strings *)
+Definition vtext (a b c : list N) : list N := a ++ ch_dot :: b ++ ch_dot :: c.
+Definition dstr (d : list N) : Prop := d <> [] /\ all_digits d = true.
+
+Lemma match_version_spec : forall l v r, match_version l = Some (v, r) ->
+  exists a b c, v = vtext a b c /\ l = v ++ r /\ dstr a /\ dstr b /\ dstr c /\ hnd r.
+Proof.
+  intros l v r H. unfold match_version in H.
+  destruct (digits1 l) as [[a l1]|] eqn:E1; [|discriminate].
+  destruct (strip_byte ch_dot l1) as [l2|] eqn:E2; [|discriminate].
+  destruct (digits1 l2) as [[b l3]|] eqn:E3; [|discriminate].
+  destruct (strip_byte ch_dot l3) as [l4|] eqn:E4; [|discriminate].
+  destruct (digits1 l4) as [[c l5]|] eqn:E5; [|discriminate].
+  injection H as <- <-.
+  apply digits1_spec in E1 as (-> & ? & ? & _). apply strip_byte_some in E2 as ->.
+  apply digits1_spec in E3 as (-> & ? & ? & _). apply strip_byte_some in E4 as ->.
+  apply digits1_spec in E5 as (-> & ? & ? & Hr).
+  exists a, b, c. unfold vtext, dstr. repeat split; try assumption.
+  now rewrite <- !app_assoc; cbn [app]; rewrite <- !app_assoc.
+Qed.
+
+Lemma hnd_dot : forall t, hnd (ch_dot :: t). Proof. reflexivity. Qed.
+Lemma hnd_colon : forall t, hnd (ch_colon :: t). Proof. reflexivity. Qed.
+
+Lemma match_version_intro : forall a b c r, dstr a -> dstr b -> dstr c -> hnd r ->
+  match_version (vtext a b c ++ r) = Some (vtext a b c, r).
+Proof.
+  intros a b c r [Ha1 Ha2] [Hb1 Hb2] [Hc1 Hc2] Hr. unfold match_version, vtext.
+  rewrite <- app_assoc. cbn [app]. rewrite digits1_intro by (try assumption; apply hnd_dot).
+  cbn [strip_byte]. rewrite N.eqb_refl. rewrite <- app_assoc. cbn [app].
+  rewrite digits1_intro by (try assumption; apply hnd_dot).
+  cbn [strip_byte]. rewrite N.eqb_refl. now rewrite digits1_intro by assumption.
+Qed.
+
+(* ---- uniqueIDRegexp needs room ---- *)
+Lemma uid_at_marker : forall l x, uid_at l = Some x -> has_prefix marker l = true.
+Proof.
+  intros l x H. unfold uid_at in H. destruct (strip_prefix marker l) eqn:E; [|discriminate].
+  eapply strip_prefix_has; eassumption.
+Qed.
+
+Lemma uid_at_length : forall l x, uid_at l = Some x -> (33 <= length l)%nat.
+Proof.
+  intros l x H. unfold uid_at in H.
+  destruct (strip_prefix marker l) as [l1|] eqn:E; [|discriminate]. apply strip_prefix_some in E as ->.
+  destruct l1 as [|m l2]; [discriminate|]. destruct (is_mode m); [|discriminate].
+  destruct (strip_byte ch_colon l2) as [l3|] eqn:E3; [|discriminate]. apply strip_byte_some in E3 as ->.
+  destruct (match_version l3) as [[v l4]|] eqn:E4; [|discriminate].
+  apply match_version_spec in E4 as (a & b & c & _ & -> & _).
+  destruct (strip_byte ch_colon l4) as [l5|] eqn:E5; [|discriminate]. apply strip_byte_some in E5 as ->.
+  destruct (span_digits l5) as [d l6] eqn:E6. apply span_digits_spec in E6 as (-> & _).
+  destruct (Nat.leb_spec uid_regex_min (length d)) as [Hd|]; [|discriminate].
+  unfold uid_regex_min in Hd. rewrite app_length. cbn [length]. rewrite app_length. cbn [length]. rewrite app_length.
+  change (length marker) with 17%nat. lia.
+Qed.
+
+Lemma uid_find_all_none : forall l, (forall i, uid_at (skipn i l) = None) -> forall k, uid_find_all k l = [].
+Proof.
+  induction l as [|x l IH]; intros H k; [reflexivity|]. cbn [uid_find_all]. destruct k as [|k].
+  - pose proof (H O) as H0. cbn [skipn] in H0. rewrite H0. apply IH. intro i. apply (H (S i)).
+  - apply IH. intro i. apply (H (S i)).
+Qed.
+
+Lemma min_len_ok : Consts.det_min_len = 24. Proof. reflexivity. Qed.
+
+Lemma rewrite_trigger_quiet : forall buf,
+  (nlen buf <? Consts.det_min_len) = true \/ last_index_of marker buf = None -> rewrite_trigger buf = buf.
+Proof.
+  intros buf H. unfold rewrite_trigger. rewrite uid_find_all_none; [reflexivity|]. intro i.
+  destruct (uid_at (skipn i buf)) as [x|] eqn:E; [exfalso|reflexivity]. destruct H as [H|H].
+  - apply uid_at_length in E. rewrite skipn_length in E. apply N.ltb_lt in H. rewrite min_len_ok in H.
+    unfold nlen in H. lia.
+  - apply uid_at_marker in E. now rewrite (last_index_none _ _ H i) in E.
+Qed.
+
+(* ==================================================================================== *)
+(* C06_silent, C06_client_rewrite_inert *)
+
+Lemma is_repeated_true : forall w m id m', is_repeated w m id = (true, m') -> m' = m.
+Proof.
+  intros w m id m' H. unfold is_repeated in H. destruct (dedup_eligible w id); [|discriminate].
+  destruct (map_find m id); [now injection H as <- | discriminate].
+Qed.
+
+Lemma set_map_same : forall d, set_map d (d_map d) = d.
+Proof. now intros []. Qed.
+
+(* no trigger => the detector's state is untouched and the bytes pass unchanged (after the
+   relay+tmux id re-tagging, which is the identity on buffers without a complete trigger id) *)
+Lemma silent : forall w d tunnel buf out d',
+  detect w d tunnel buf = (out, None, d') ->
+  d' = d /\ out = if d_relay d && d_tmux d then rewrite_trigger buf else buf.
+Proof.
+  intros w d tunnel buf out d' H. unfold detect in H.
+  destruct (nlen buf <? Consts.det_min_len) eqn:E0.
+  { injection H as <- <-. split; [reflexivity|]. destruct (d_relay d && d_tmux d); [|reflexivity].
+    symmetry. apply rewrite_trigger_quiet. now left. }
+  destruct (last_index_of marker buf) eqn:E1.
+  2:{ injection H as <- <-. split; [reflexivity|]. destruct (d_relay d && d_tmux d); [|reflexivity].
+      symmetry. apply rewrite_trigger_quiet. now right. }
+  set (o := if d_relay d && d_tmux d then rewrite_trigger buf else buf) in *.
+  destruct (last_index_of marker o) as [idx|]; [|now injection H as <- <-].
+  destruct (find_trzsz (skipn idx o)) as [m|]; [|now injection H as <- <-].
+  destruct (negb (is_none (find_tmux o)) && (negb tunnel || is_none (m_port m))); [now injection H as <- <-|].
+  destruct ((Consts.det_finished_offset <? nlen (skipn idx o)) && _); [now injection H as <- <-|].
+  destruct (parse_version (m_ver m)); [|now injection H as <- <-].
+  destruct (is_repeated w (d_map d) _) as [rep mp] eqn:E5.
+  destruct rep; [|discriminate]. injection H as <- <-. apply is_repeated_true in E5 as ->.
+  now rewrite set_map_same.
+Qed.
+
+Lemma detect_no_marker : forall w d tunnel buf, last_index_of marker buf = None ->
+  detect w d tunnel buf = (buf, None, d).
+Proof. intros w d tunnel buf H. unfold detect. rewrite H. now destruct (nlen buf <? Consts.det_min_len). Qed.
+
+(* what a client-mode detector shows locally is inert for EVERY detector further along *)
+Lemma client_rewrite_inert : forall w d tunnel buf out t d', d_relay d = false ->
+  detect w d tunnel buf = (out, Some t, d') ->
+  last_index_of marker out = None /\
+  forall w2 d2 tunnel2, detect w2 d2 tunnel2 out = (out, None, d2).
+Proof.
+  intros w d tunnel buf out t d' Hr H.
+  assert (Hm : last_index_of marker out = None).
+  { unfold detect in H. rewrite Hr in H. cbn [andb] in H.
+    destruct (nlen buf <? Consts.det_min_len); [discriminate|].
+    destruct (last_index_of marker buf) as [idx|]; [|discriminate].
+    destruct (find_trzsz (skipn idx buf)) as [m|]; [|discriminate].
+    destruct (negb (is_none (find_tmux buf)) && _); [discriminate|].
+    destruct ((Consts.det_finished_offset <? nlen (skipn idx buf)) && _); [discriminate|].
+    destruct (parse_version (m_ver m)); [|discriminate].
+    destruct (is_repeated w (d_map d) _) as [rep mp]. destruct rep; [discriminate|].
+    injection H as <- _ _. apply client_rewrite_no_marker. }
+  split; [exact Hm|]. intros. now apply detect_no_marker.
+Qed.
